@@ -54,6 +54,11 @@ vars == <<cfg, phase, ialts, cp, cm, evs, popt, iends, cend, disc>>
    sel      [var, len, nug, opt |-> [k |-> "fit" | "off" | "fix", v]]   = the keyword selection
    sill     [k |-> "none" | "true" | "false" | "val", v]
    anis     [k |-> "fit" | "off" | "fix", v]
+   spell    [x, y, w]: how the numbers are handed in (x: "f64" | "i64" | "list" | "f32" bin centers,
+            y: "f64" | "list" | "f32" variogram values, w: "-" | "none" | "arr" | "list" weights).
+            An input class only: the documented semantics does not depend on it (SpellingIrrelevant),
+            and the driver requires the same of the implementation (result identical to the float64
+            spelling of the same numbers, r2 equal to its definition on the data handed in)
    unknown  an unknown keyword is part of the selection
    methodok method is one of 'trf', 'dogbox'                                  *)
 
@@ -461,6 +466,12 @@ IdealSound ==
   phase # "start" =>
     \A pp \in {q \in ialts : q.st = "ready"} :
       \A x \in IdealVecs(cfg, pp) : EndOK(cfg, pp, IdealPost(cfg, pp, x))
+
+(* dtype / container of the arguments are no part of the documented semantics *)
+BaseSpell == [x |-> "f64", y |-> "f64", w |-> "-"]
+SpellingIrrelevant ==
+  phase # "start" => /\ ialts = IdealPre([cfg EXCEPT !.spell = BaseSpell])
+                     /\ cp = ImplPre([cfg EXCEPT !.spell = BaseSpell])
 
 (* a ready ideal outcome has legal values for everything that is not fitted *)
 IdealPreLegal ==
